@@ -371,8 +371,12 @@ SIDE_TABLE_PROPS = ("C22", "C05")
 # BOUNDED stand-ins: differential checks of real functions that no contract reaches (never counted as proved; decisive only
 # as a refutation with a concrete input).  property -> (vreplay stand-in name, function, what is compared)
 BOUNDED_STANDINS = {
-    "C16": ("triples", "serde::de_tree::parse_triples", "parse_triples succeeds on exactly the inputs node_from_bytes accepts and consumes the same bytes"),
-    "C22": ("triples", "serde::de_tree::parse_triples", "the tree hashes parse_triples returns equal the recursive definition's"),
+    "C15": [("objcache", "serde::object_cache::{ObjectCache, serialized_length}", "the object-cache serialized length equals the number of bytes node_to_bytes produces")],
+    "C16": [("triples", "serde::de_tree::parse_triples", "parse_triples succeeds on exactly the inputs node_from_bytes accepts and consumes the same bytes")],
+    "C20": [("ser26", "serde_2026::{serialize_2026, deserialize_2026, serialized_length_serde_2026}", "serialize_2026 output decodes (strict and lenient) to the same tree, the length probe returns the blob length; decoders total on byte strings; classic decoders reject the magic prefix")],
+    "C29": [("brlimit", "serde::ser_br::node_to_stream_backrefs (assumed contract in the proof of node_to_bytes_backrefs_limit)", "node_to_bytes_backrefs_limit returns the unlimited serialization when it fits and OutOfMemory otherwise")],
+    "C22": [("triples", "serde::de_tree::parse_triples", "the tree hashes parse_triples returns equal the recursive definition's"),
+            ("objcache", "serde::object_cache::treehash, serde::intern::InternedTree::tree_hash", "the object-cache tree hash and the interned tree's hash equal the recursive definition's")],
 }
 
 
@@ -670,8 +674,7 @@ def check_property(pid, tier="quick", seed=0):
     # ---- bounded stand-ins (functions not under contract; every run) -----------------------------
     standin_results = []
     standin_violation = None
-    if pid in BOUNDED_STANDINS:
-        sname, sfn, swhat = BOUNDED_STANDINS[pid]
+    for sname, sfn, swhat in BOUNDED_STANDINS.get(pid, []):
         if replay_built is None:
             replay_built = build_replay()
         sr = run_replay(["standin", sname, str(seed)], timeout=600) if replay_built else None
@@ -679,17 +682,18 @@ def check_property(pid, tier="quick", seed=0):
             problems.append(f"bounded stand-in {sname} could not run: {json.dumps(sr)[:200]}")
         else:
             standin_results.append({"function": sfn, "not_under_contract": True, "labelled": "bounded (never counted as proved)", "compares": swhat, **sr})
-            if sr.get("found"):
-                standin_violation = sr
+            if sr.get("found") and standin_violation is None:
+                standin_violation = (sname, sfn, swhat, sr)
 
     # ---- violations ---------------------------------------------------------------------------
     rc = 1 if any(l.startswith("VIOLATION") for l in kani_lines) else 0
     if standin_violation:
+        sname, sfn, swhat, sr = standin_violation
         os.makedirs(os.path.join(VERIF, "evidence", "replay"), exist_ok=True)
-        rpath = os.path.join(VERIF, "evidence", "replay", f"{pid}-bounded-standin-{BOUNDED_STANDINS[pid][0]}.json")
+        rpath = os.path.join(VERIF, "evidence", "replay", f"{pid}-bounded-standin-{sname}.json")
         with open(rpath, "w") as fh:
-            json.dump({"property": pid, "failed_obligation": "bounded stand-in (differential check of the real code; function not under contract): " + BOUNDED_STANDINS[pid][2],
-                       "function": BOUNDED_STANDINS[pid][1], "failing_input": standin_violation, "replay_cmd": f"./check {pid} --replay {rpath}"}, fh, indent=1)
+            json.dump({"property": pid, "failed_obligation": "bounded stand-in (differential check of the real code; function not under contract): " + swhat,
+                       "function": sfn, "failing_input": sr, "replay_cmd": f"./check {pid} --replay {rpath}"}, fh, indent=1)
         out_lines.append(f"VIOLATION property={pid} replay={rpath}")
         rc = 1
     if side_violation:
